@@ -721,6 +721,9 @@ func c12CheckSet(c c12SetCase) engine.Result {
 			// the two concrete types share everything used here except the flavour-specific setters
 			cl := ebp.CreateCableLabsEbp()
 			cc := ebp.CreateComcastEBP()
+			// value copies of the fresh objects, filled with other ids later on: a copy of a new object is
+			// a new object of its own (the constructors return values), whatever capacity its slices start with
+			clShadow, ccShadow := cl, cc
 			var x ebp.EncoderBoundaryPoint = &cc
 			if c.Tag == ref.EBPTagCableLabs {
 				x = &cl
@@ -733,13 +736,17 @@ func c12CheckSet(c c12SetCase) engine.Result {
 				x.SetSap(v.SAP)
 				x.SetEBPTime(time.Unix(v.Unix, v.Nanos).UTC())
 				if c.Tag == ref.EBPTagCableLabs {
-					cl.Grouping = append([]byte(nil), v.Grouping...)
+					cl.Grouping = append(cl.Grouping[:0], v.Grouping...) // grows the slice the constructor handed out
+					clShadow.Grouping = append(clShadow.Grouping, 0x6E, 0x6E, 0x6E, 0x6E)
+					clShadow.ReservedBytes = append(clShadow.ReservedBytes, 0xEE, 0xEE, 0xEE)
 					cl.ExtensionFlags = cl.ExtensionFlags&c12PartitionBit | v.Ext&^c12PartitionBit
 					cl.PartitionFlags = v.Parts
 					cl.ReservedBytes = append([]byte(nil), v.Reserved...)
 					m.Ext = m.Ext&c12PartitionBit | v.Ext&^c12PartitionBit
 				} else {
-					cc.Grouping = append([]byte(nil), v.Grouping...)
+					cc.Grouping = append(cc.Grouping[:0], v.Grouping...)
+					ccShadow.Grouping = append(ccShadow.Grouping, 0x6E)
+					ccShadow.ReservedBytes = append(ccShadow.ReservedBytes, 0xEE, 0xEE, 0xEE)
 					cc.ExtensionFlags = v.Ext
 					cc.ReservedBytes = append([]byte(nil), v.Reserved...)
 					m.Ext = v.Ext
